@@ -27,7 +27,7 @@ func init() {
 	register(&Prop{
 		ID:  "C07",
 		Run: runC07,
-		Rule: "one case = a derivation program of <= 24 operations (derive by With / WithLazy / Named / WithOptions(Fields) / Sugar().With+Desugar / slog WithAttrs with field lists of 0-9 fields incl. namespaces, nested objects and mutable marshalers; log through Logger, Sugar or slog front ends; mutate a shared marshaler) over a core stack drawn from JSON / console / observer leaves, tees of them and sampler / hooked / level-increase / lazy wrappers, executed by one task (with mutation and lazy-forcing semantics) or by 2-3 tasks deriving from and logging through shared nodes under a seeded schedule; after every log a probe log on a random earlier node; " +
+		Rule: "one case = a derivation program of <= 24 operations (derive by With / WithLazy / Named / WithOptions(Fields) / Sugar().With+Desugar / slog WithAttrs with field lists of 0-9 fields incl. namespaces, nested objects, objects whose marshaler fails and mutable marshalers; log through Logger, Sugar or slog front ends; mutate a shared marshaler) over a core stack drawn from JSON / console / observer leaves, tees of them and sampler / hooked / level-increase / lazy wrappers, executed by one task (with mutation and lazy-forcing semantics) or by 2-3 tasks deriving from and logging through shared nodes under a seeded schedule; after every log a probe log on a random earlier node; " +
 			"non-trivial = at least 3 loggers in the tree and at least 2 log operations; distinct = distinct hash of (program, core stack, scheduling decisions)",
 		Real: []string{"zap.Logger clone/With/WithLazy/Named/WithOptions, SugaredLogger.With/Desugar, zapslog.Handler.WithAttrs", "ioCore.With + jsonEncoder.Clone, console encoder, multiCore.With, sampler.With, hooked.With, levelFilterCore.With, lazyWithCore", "observer.With"},
 		Stub: []string{"leaf sinks (zsim.SimSink)", "mutable ObjectMarshaler", "clock"},
@@ -43,7 +43,40 @@ const (
 	c7Refl
 	c7Err
 	c7Arr
+	c7Fail // an object whose marshaler fails after one member: its own content is not judged, the "<key>Error" field and everything around it is
 )
+
+// c7wild matches any value in the expected context.
+type c7wild struct{}
+
+type c7failing struct{ n int }
+
+func (f c7failing) MarshalLogObject(enc zapcore.ObjectEncoder) error {
+	enc.AddInt("p", f.n)
+	return fmt.Errorf("boom%d", f.n)
+}
+
+// c7match: deep equality of decoded contexts, with c7wild in the expectation
+// matching anything.
+func c7match(got, want any) bool {
+	if _, ok := want.(c7wild); ok {
+		return true
+	}
+	wo, ok := want.([]jkv)
+	if !ok {
+		return reflect.DeepEqual(got, want)
+	}
+	gobj, ok := got.([]jkv)
+	if !ok || len(gobj) != len(wo) {
+		return false
+	}
+	for i := range wo {
+		if gobj[i].k != wo[i].k || !c7match(gobj[i].v, wo[i].v) {
+			return false
+		}
+	}
+	return true
+}
 
 type c7field struct {
 	kind int
@@ -173,6 +206,8 @@ func (w *c7world) zapFields(fs []c7field) []zap.Field {
 			out = append(out, zap.NamedError(f.key, fmt.Errorf("e%d", f.ival)))
 		case c7Arr:
 			out = append(out, zap.Ints(f.key, []int{f.ival, f.ival + 1}))
+		case c7Fail:
+			out = append(out, zap.Object(f.key, c7failing{f.ival}))
 		}
 	}
 	return out
@@ -216,6 +251,8 @@ func c7expect(fs []c7field) []jkv {
 			out = append(out, jkv{f.key, fmt.Sprintf("e%d", f.ival)})
 		case c7Arr:
 			out = append(out, jkv{f.key, []any{json.Number(strconv.Itoa(f.ival)), json.Number(strconv.Itoa(f.ival + 1))}})
+		case c7Fail:
+			out = append(out, jkv{f.key, c7wild{}}, jkv{f.key + "Error", fmt.Sprintf("boom%d", f.ival)})
 		case c7NS:
 			out = append(out, jkv{f.key, c7expect(fs[i+1:])})
 			return out
@@ -297,12 +334,12 @@ func (w *c7world) genFields(g *zsim.Stream, id int, allowMut bool, slogOnly bool
 	var out []c7field
 	for j := 0; j < n; j++ {
 		f := c7field{key: fmt.Sprintf("f%d_%d", id, j), ival: g.Draw(50)}
-		wts := []int{4, 3, 1, 2, 0, 2, 1, 2}
+		wts := []int{4, 3, 1, 2, 0, 2, 1, 2, 1}
 		if allowMut {
 			wts[c7Mut] = 3
 		}
 		if slogOnly {
-			wts = []int{4, 3, 0, 0, 0, 0, 0, 0}
+			wts = []int{4, 3, 0, 0, 0, 0, 0, 0, 0}
 		}
 		f.kind = g.Weighted(wts...)
 		if f.kind == c7Mut {
@@ -696,7 +733,7 @@ func runC07(c *Ctx) {
 				}
 				obj, err := decodeOrdered(bytes.TrimSpace(buf.Bytes()))
 				if err != nil {
-					c.Fail("C07: harness: observed context does not parse", "%v", err)
+					c.Fail("C07: the context recorded by an observer does not re-encode to a well-formed object", "%v", err)
 					return
 				}
 				got = obj[2:] // level, msg
@@ -719,7 +756,7 @@ func runC07(c *Ctx) {
 				c.Fail("C07: an entry carries the wrong logger name", "%s through n%d (leaf %d): name %q, expected %q", op.msg, op.node, li, name, op.expName)
 				return
 			}
-			if !reflect.DeepEqual(got, want) && !(len(got) == 0 && len(want) == 0) {
+			if !c7match(got, want) && !(len(got) == 0 && len(want) == 0) {
 				c.Fail("C07: an entry does not carry exactly the fields of its own derivation path followed by its call-site fields", "%s through n%d (slog=%v, leaf %d %s):\n  got      %s\n  expected %s", op.msg, op.node, isSlog, li, []string{"json", "console", "observer"}[lf.kind], jstr(got), jstr(want))
 				return
 			}
